@@ -15,6 +15,7 @@ import (
 	"os"
 	"strings"
 	"sync"
+	"sync/atomic"
 	"testing"
 	"time"
 
@@ -33,6 +34,9 @@ type c13Case struct {
 	// Inflate > 0: the first peer of the top height (the carrier of the tip's commit) claims to have Inflate more heights than
 	// it has (a false status), answers the request for its real height according to the strategy and is silent about the rest
 	Inflate int64 `json:"inflate,omitempty"`
+	// LeaveAt > 0 (all peers honest): the peer that served the block of this height disconnects while the reactor is validating
+	// that block, i.e. after the reactor has looked at the pair of blocks and before it pops the request
+	LeaveAt int64 `json:"leave_at,omitempty"`
 	// InflateLate: the false status is sent only after that peer has answered what it was asked (it has been idle once)
 	InflateLate bool `json:"inflate_late,omitempty"`
 	// Push > 0: before any peer that has height Push is known (only the top peer has reported its status, so the pool already has a
@@ -206,6 +210,35 @@ func c13Run(chain *c13kit.Chain, c c13Case) (res c13Result) {
 		lg := log.NewTMLogger(c13Writer{trace})
 		n.bcR.SetLogger(lg)
 		n.sw.SetLogger(lg)
+	}
+	var left int32
+	if c.LeaveAt > 0 {
+		n.node.Ev.Hook = func() {
+			pool := n.bcR.pool
+			ph, _, _ := pool.GetStatus()
+			if ph != c.LeaveAt || !atomic.CompareAndSwapInt32(&left, 0, 1) {
+				return
+			}
+			pool.mtx.Lock()
+			rq := pool.requesters[ph]
+			pool.mtx.Unlock()
+			if rq == nil {
+				return
+			}
+			pid := rq.getPeerID()
+			peer := n.sw.Peers().Get(pid)
+			if peer == nil {
+				return
+			}
+			trace("peer %s leaves while its block of height %d is being validated", pid, ph)
+			n.sw.StopPeerForError(peer, "verif: connection lost")
+			// the requester notices (its block is taken back, it looks for another peer)
+			until := time.Now().Add(2 * time.Second)
+			for rq.getBlock() != nil && time.Now().Before(until) {
+				time.Sleep(100 * time.Microsecond)
+			}
+			atomic.StoreInt32(&left, 2)
+		}
 	}
 	if err := n.bcR.Start(); err != nil {
 		panic(err)
@@ -403,6 +436,16 @@ LOOP:
 			return
 		}
 	}
+	// (an early switch to consensus — the reactor's one-second ticker firing on a loaded machine before all peers are known — is the
+	// outcome "early-switch" below, not a wedge)
+	if !reached && !hr.Called && c.LeaveAt > 0 && atomic.LoadInt32(&left) == 2 {
+		ph, _, _ := n.bcR.pool.GetStatus()
+		res.Key = "blockchain/v0:sync-from-honest-peers-wedged-after-a-peer-left-during-validation"
+		res.What = fmt.Sprintf("all peers honest; the peer that served height %d disconnected while that block was being validated; the node did not reach the tip within %v (store height %d, pool height %d, %d peers consumed)",
+			c.LeaveAt, c13CaseTimeout, n.node.BlockStore.Height(), ph, len(n.peers))
+		res.Outcome = "violation"
+		return
+	}
 	if livelock {
 		for _, p := range n.peers {
 			if p.Asked && !p.Resp.Usable && p.IsRunning() {
@@ -595,6 +638,17 @@ func TestVerifC13V0(t *testing.T) {
 			}
 			return true
 		})
+	}
+	// a peer leaves inside the window between the reactor's look at a block and the pop of its request
+	if !asC17 {
+		for h := int64(1); h <= c13kit.Tip; h++ {
+			for _, nat := range []bool{false, true} {
+				k++
+				if r.Mine(k) {
+					run(c13Case{LeaveAt: h, Natural: nat})
+				}
+			}
+		}
 	}
 	// unsolicited answers for a height nobody can be asked for yet (<= 1 further lie)
 	if !stop {
